@@ -998,7 +998,10 @@ impl FseEncoder {
     
     /// Parallel compression for large data (real implementation)
     fn compress_parallel(&mut self, data: &[u8], num_blocks: usize) -> Result<Vec<u8>> {
-        let block_size = self.config.block_size;
+        // The container is recognised by its block count (2..=64, see FseDecoder::decompress):
+        // longer inputs are cut into larger blocks rather than into more of them.
+        const MAX_BLOCKS: usize = 64;
+        let block_size = self.config.block_size.max((data.len() + MAX_BLOCKS - 1) / MAX_BLOCKS);
         let chunks: Vec<&[u8]> = data.chunks(block_size).collect();
         
         // If we don't have enough chunks for parallelization, fall back to single-threaded
